@@ -14,6 +14,9 @@ import (
 var RepoDir = "/repo"
 var VerifDir = "/verif"
 
+// OutDir receives evidence/ and replay/ (the verif directory unless a development sweep redirects it)
+var OutDir = ""
+
 func LoadSpecs() (*SpecDB, error) {
 	db := NewSpecDB()
 	for _, f := range []struct{ path, pkg string }{
@@ -45,6 +48,13 @@ func Main(args []string) int {
 	os.Setenv("PATH", "/opt/veriftools/go1.26.8/bin:"+os.Getenv("PATH")+":/usr/local/bin:/usr/bin:/bin:/opt/veriftools/pyvenv/bin")
 	for _, kv := range [][2]string{{"GOTOOLCHAIN", "local"}, {"GOFLAGS", "-mod=mod"}, {"GOPROXY", "off"}, {"GOSUMDB", "off"}, {"CGO_ENABLED", "1"}, {"GOWORK", "off"}} {
 		os.Setenv(kv[0], kv[1])
+	}
+	// development only (seeded-change sweeps on a scratch clone): the registered checks never set these
+	if v := os.Getenv("VCHECK_REPO"); v != "" {
+		RepoDir = v
+	}
+	if v := os.Getenv("VCHECK_OUT"); v != "" {
+		OutDir = v
 	}
 	switch args[0] {
 	case "list":
